@@ -869,7 +869,7 @@ MANIFEST = {
     "InMemoryMetricsStore, summarised by the real GlobalStatsCalculator and compared number by number with reference statistics (fractions/statistics) over the normal "
     "samples; each race - and, in the remaining cases, a generated result structure - is stored with the real FileRaceStore and read back through find_by_race_id and "
     "[every eighth store case also goes through rally's real EsMetricsStore over an in-process index that executes its queries: the results must equal those over the in-memory store] "
-    "list(). Holds on the multisets generated, not beyond.",
+    "list(). Records reach the summarising store directly, through one to_externalizable/bulk_add hand-over, or in 2..5 hand-overs (one per step, as a race does). Holds on the multisets generated, not beyond.",
     "note": "Trusts the reference (rank p/100*(n-1), linear interpolation, 40 lines), Python's statistics/fractions/json modules, and the assumption that a task's samples "
     "are the records carrying its name and operation type.",
     "technique": "runtime monitor: reference-model oracle over generated record multisets + structural round-trip equality through the real race store",
